@@ -9,7 +9,7 @@ class C11(C10):
     focus = 'C11'
     extracted = True      # WindowedDStream._step regenerated from the current source (harness/extract_m.py, Extracted/EquivC11.lean)
     rule = ('stream DAGs in which ~40% of the derived streams are window(w, s) (w 1..4, s 1..3) and ~45% of the keyed ones '
-            'updateStateByKey (sum / last / count / list-append), each with 1..4 consumers (foreachRDD outputs, count, further '
+            'updateStateByKey (sum / last / count / list-append, the last one also in its in-place spelling), each with 1..4 consumers (foreachRDD outputs, count, further '
             'operations), over batch histories of up to 6 batches + exhaustion, up to 9 ticks, driven through the real start() '
             'callback by a virtual clock; every consumer\'s per-tick batch is compared with the Lean model (window: ordered; '
             'state: as a key -> state map). Fixed: w=3,s=2 over six batches with three consumers; a key absent for several '
